@@ -1030,7 +1030,8 @@ class C17(Prop):
     ctx.coverage['registry_managers'] = len(reg)
     ctx.coverage['driven_managers'] = len(DRIVEN)
     ctx.coverage['not_driven'] = NOT_DRIVEN
-    ctx.coverage['traces_validated_against_impl'] = 'two-thread cases: see input_distribution threads:2'
+    ctx.coverage['traces_validated_against_impl'] = sum(
+        v for k, v in getattr(ctx, 'stats', {}).get('histogram', {}).items() if k.startswith('threads:2'))
 
 
 PROP = C17()
